@@ -9,6 +9,16 @@ NOTE = ("Trusted base: clang 14 front end + clang::CFG, tools/xzfacts.cc, sa/*.p
         "of the property is NOT decided (see DESIGN.md section 4).")
 
 CLAIMED = {
+ "C12": dict(
+  text="Must-pass and dominance rules on the encoder state machines and update functions: a finished Block gets its Index "
+       "Record (with the sizes of that Block) before the next Block starts; LZMA_SYNC_FLUSH never ends a Block; no Block or "
+       "Block Header is started without input (no empty Block after a flush); the Index starts only on LZMA_FINISH; LZMA1 and "
+       "BCJ refuse SYNC_FLUSH before any effect; LZMA2 reports flush complete only with no unencoded input and writes the end "
+       "marker only for FINISH; lz_encode resets mf.action on every non-OK return; pending bytes replayed only with input; "
+       "update functions restricted to their safe states, validate before storing, and cannot change Filter IDs; action "
+       "conversion table. That the flushed prefix decodes to the input is NOT decided.",
+  technique="must-pass-through (edge cut) on finite-domain product graphs, dominator rules, table comparison",
+  ref="4/C12"),
  "C09": dict(
   text="Must-pass (edge cut) rules on the resume-aware product graphs of the container decoders: every allocating call "
        "for a new Block / Index / member (block decoder init, filter init, index prealloc/append, worker preparation) is "
